@@ -447,7 +447,7 @@ var inputs = []string{"red", "blue", "yes", "no", "5", "18", "20", "hello world"
 
 func drawCase(t *rapid.T) Case {
 	c := Case{Seed: int64(rapid.IntRange(1, 1000).Draw(t, "seed")), MaxResultChars: rapid.SampledFrom([]int{0, 0, 5, 20}).Draw(t, "maxresult")}
-	env := M{"date_format": "YYYY-MM-DD", "time_format": "tt:mm", "timezone": "UTC", "allowed_languages": rapid.SampledFrom([][]string{{"eng"}, {"eng", "fra"}, {"fra", "eng"}, {"spa", "fra"}}).Draw(t, "langs")}
+	env := M{"date_format": "YYYY-MM-DD", "time_format": "tt:mm", "timezone": "UTC", "allowed_languages": rapid.SampledFrom([][]string{{"eng"}, {"eng", "fra"}, {"fra", "eng"}, {"spa", "fra"}, {"fra", "spa"}, {"fra", "spa", "eng"}}).Draw(t, "langs")}
 	contact := M{"uuid": world.UUID("contact", 1), "id": 1, "status": "active", "created_on": "2015-01-01T10:00:00Z", "name": rapid.SampledFrom([]string{"Bob", "Ann", "red"}).Draw(t, "name"),
 		"urns": []string{"tel:+250788123456"}, "fields": M{"age": M{"text": "23", "number": 23}}, "groups": []M{{"uuid": world.UUID("group", 1), "name": "Testers"}}}
 	if l := rapid.SampledFrom([]string{"", "eng", "fra", "spa"}).Draw(t, "clang"); l != "" {
@@ -497,15 +497,18 @@ func drawCase(t *rapid.T) Case {
 			}
 			cs := CaseSpec{UUID: world.UUID("case", i+1), Type: item.typ, Args: item.args, Category: cat}
 			if len(item.args) > 0 {
+				// translated in one of two languages (so that the contact's language, the environment's default and the
+				// base language can be three different ones with a translation in only one of them)
+				tl := rapid.SampledFrom([]string{"fra", "fra", "spa"}).Draw(t, "translang")
 				switch rapid.IntRange(0, 5).Draw(t, "trk") {
 				case 0:
 					if item.trans != nil {
-						cs.Trans = map[string][]string{"fra": item.trans}
+						cs.Trans = map[string][]string{tl: item.trans}
 					}
 				case 1:
-					cs.Trans = map[string][]string{"fra": append(append([]string{}, item.args...), "surplus")} // wrong length
+					cs.Trans = map[string][]string{tl: append(append([]string{}, item.args...), "surplus")} // wrong length
 				case 2:
-					cs.Trans = map[string][]string{"fra": {}}
+					cs.Trans = map[string][]string{tl: {}}
 				}
 			}
 			r.Cases = append(r.Cases, cs)
